@@ -1,5 +1,5 @@
 (* C07  Hash, MAC and core primitives equal their specifications.  Statements only. *)
-From Dryoc Require Import Spec.Poly1305 Spec.Salsa20 Spec.ChaCha20 Spec.SipHash Impl.Poly1305 Impl.Cores Impl.Hashes Refine.Blake2b Refine.Hashes Refine.GenTie Refine.Poly1305 Refine.Cores Gen.Poly1305Gen Refine.Poly1305Gen.
+From Dryoc Require Import Spec.Poly1305 Spec.Salsa20 Spec.ChaCha20 Spec.SipHash Impl.Poly1305 Impl.Cores Impl.Hashes Refine.Blake2b Refine.Hashes Refine.GenTie Refine.Poly1305 Refine.Cores Gen.Poly1305Gen Refine.Poly1305Gen Gen.Kernels Refine.Blake2bGen.
 Import Blake2bImpl HashesImpl.
 Open Scope Z_scope.
 
@@ -78,6 +78,17 @@ Theorem C07_poly1305_block_is_code : forall hibit r h m,
   rinv r -> hinv h -> length m = 16%nat -> wf_bytes m -> (hibit = 0 \/ hibit = Z.shiftl 1 40) ->
   Poly1305Impl.block_step hibit r h m = core r h (limbs (if hibit =? 0 then 0 else 2 ^ 40) m).
 Proof. exact block_step_core. Qed.
+
+(* the closures of blake2b_soft.rs::compress as translated from the source on this run (the g
+   statements with their rotation amounts and message-word selection, the eight g calls of a
+   round, the twelve round calls) are the ones the model runs *)
+Theorem C07_blake2b_compress_from_source : forall sh st sf block,
+  (let tm := map (fun i => le_val (slice block (i * 8) (i * 8 + 8))) (seq 0 16) in
+   let tv := sh ++ firstn 4 IV ++
+             [Z.lxor (fst st) (nthz IV 4); Z.lxor (snd st) (nthz IV 5); Z.lxor (fst sf) (nthz IV 6); Z.lxor (snd sf) (nthz IV 7)] in
+   let tv := fold_left (round_gen tm) blake2b_rounds tv in
+   map (fun i => Z.lxor (Z.lxor (nthz sh i) (nthz tv i)) (nthz tv (i + 8))) (seq 0 8)) = compress sh st sf block.
+Proof. exact compress_gen. Qed.
 
 (* the arithmetic of poly1305_soft.rs as translated from the source on this run (block loop body,
    finalize, key clamping) is, statement for statement, the model proved above *)
